@@ -73,6 +73,12 @@ def run(tier, seed):
     smt.discharge_all(obs, tier)
     results += [runner.from_smt(o) for o in obs]
     results += kani.run_specs("C15", e3sets.PLANE_IDX + e3sets.WITH_FACES, tier)
+    # polytope validity is NOT decided by any contract in reach: bounded stand-in on the real crate, labelled
+    npc, pb = polytope_probe(seed, 14 if tier == "quick" else 150)
+    results.append(Result("C15.bounded.real_cells_with_faces_are_valid_convex_polytopes", "R", "discharged" if pb is None else "refuted", 0.0, "replay",
+                          "" if pb is None else repr(pb)[:3000], "VoronoiIntegrator::build(..).with_faces() and the ConvexCell<WithFaces> accessors (public API, real crate)",
+                          bounded="%d cells of random 3D tessellations (1..20 generators, periodic and not), seed %d" % (npc, seed),
+                          counterexample=pb, replay={"reproduced": pb is not None, "mismatch": pb}))
     meta = {
         "level": "proof",
         "functions": slices + f2 + [{"fn": e3sets.U_PLANE_IDX, "backend": "Kani on the real crate"}, {"fn": e3sets.U_WITH_FACES, "backend": "Kani on the real crate"}],
@@ -81,8 +87,9 @@ def run(tier, seed):
             "assume_specification of <[usize]>::contains and <[T]>::swap (std)",
             "W7: ConvexCell reduced to its `vertices` field for sort_face_vertices",
             "the type-state obligations are syntactic checks over the AST; the transmute in ConvexCellDecomposition::new and the two unwrap_unchecked accessors are unverified unsafe code",
-            "NOT decided: vertex = intersection of its planes inside all half-spaces, planarity / convexity / counter-clockwise order, V - E + F = 2, polygon area = face integral "
-            "(polytope validity: statements about the composed float algorithm); with_faces' vertex collection and face offsets are iterator code outside E1"],
+            "NOT proved: vertex = intersection of its planes inside all half-spaces, planarity / convexity / counter-clockwise order, V - E + F = 2, polygon area = face integral, "
+            "discard + re-derive = identity (polytope validity: statements about the composed float algorithm; with_faces' vertex collection and face offsets are iterator code outside E1): "
+            "covered by a BOUNDED stand-in on the real crate only, labelled"],
         "trusted_base": ["Verus 0.2026.09.13 + Z3", "vx (syn 2 dump)", "vlib/verus.py splice rules W1-W7", "Kani 0.68 / CBMC 6.11"],
         "extra_cov": {"verus_functions_verified": (r["json"] or {}).get("verification-results", {}).get("verified"), "assembled_file": r["path"]},
         "explanation": "Vertex::plane_idx returns the first position of the plane in the dual or None, within three iterations (Verus, and Kani over all 2^256 inputs); "
@@ -148,3 +155,58 @@ def replay_accessors(ob):
                 if key(st["right"], st["shift"]) not in have:
                     bad.append({"request": rq, "cell": c["idx"], "stored_face": st, "accessor_labels": c["accessors"]}); break
     return {"reproduced": bool(bad), "runs": bad[:2], "what": "neighbour(f)/shift(f) of a cell's faces do not reproduce the (right, shift) labels of its stored faces"}
+
+
+def polytope_probe(seed, n_sets):
+    """C15's sentences on real 3D cells with face information (public API): every vertex is the intersection of its three planes, inside all
+    half-spaces, in exactly three faces; every face is a planar convex polygon, counter-clockwise about the inward normal, whose area equals the
+    face's area integral; V - E + F = 2; accessors agree with the face integrals; discarding and re-deriving faces is the identity."""
+    import random
+    from ..runner import replay_requests
+    rng = random.Random(seed)
+    reqs = []
+    for t in range(n_sets):
+        n = rng.choice([1, 2, 3, 8, 20])
+        w = [1.0, rng.choice([1.0, 1.4]), rng.choice([1.0, 0.7])]
+        an = [rng.choice([0.0, -2.0]), 0.0, rng.choice([0.0, 5.0])]
+        gens = [[an[a] + (0.02 + 0.96 * rng.random()) * w[a] for a in range(3)] for _ in range(n)]
+        reqs.append({"op": "polytope", "gens": gens, "anchor": an, "width": w, "periodic": bool(t % 2)})
+    sub = lambda a, b: [a[i] - b[i] for i in range(3)]
+    dot = lambda a, b: sum(a[i] * b[i] for i in range(3))
+    cross = lambda a, b: [a[1] * b[2] - a[2] * b[1], a[2] * b[0] - a[0] * b[2], a[0] * b[1] - a[1] * b[0]]
+    ncells = 0
+    for rq, a in zip(reqs, replay_requests(reqs, timeout=900)):
+        if "cells" not in a: return ncells, {"request": rq, "real": a, "what": "construction panics"}
+        sc = max(rq["width"]); tol = 1e-8 * sc
+        for c in a["cells"]:
+            ncells += 1
+            V, P, F = c["vertices"], c["planes"], c["faces"]
+            bad = lambda what, **kw: (ncells, dict({"request": rq, "cell": c["idx"], "what": what}, **kw))
+            for vi, v in enumerate(V):
+                for k in v["dual"]:
+                    if abs(dot(sub(v["loc"], P[k]["p"]), P[k]["n"])) > tol: return bad("vertex is not on one of its three planes", vertex=vi, plane=k)
+                if min(dot(sub(v["loc"], pl["p"]), pl["n"]) for pl in P) < -tol: return bad("vertex lies outside a half-space of the cell", vertex=vi)
+                if sum(vi in f["vertices"] for f in F) != 3: return bad("vertex does not belong to exactly three faces", vertex=vi, in_faces=sum(vi in f["vertices"] for f in F))
+            edges = 0
+            for fi, f in enumerate(F):
+                idx = f["vertices"]; m = len(idx)
+                if m < 3 or m != f["count"] or len(set(idx)) != m: return bad("face vertex list is not a simple polygon", face=fi, vertices=idx)
+                edges += m
+                n_in = f["plane"]["n"]
+                pts = [V[i]["loc"] for i in idx]
+                if any(abs(dot(sub(p_, f["plane"]["p"]), n_in)) > tol for p_ in pts): return bad("face polygon is not planar (vertex off the face's plane)", face=fi)
+                area2 = 0.0
+                for k in range(m):
+                    p0, p1, p2 = pts[k], pts[(k + 1) % m], pts[(k + 2) % m]
+                    if dot(cross(sub(p1, p0), sub(p2, p1)), n_in) < -tol * sc: return bad("face polygon is not convex / not counter-clockwise about the inward normal", face=fi, corner=(k + 1) % m)
+                for k in range(1, m - 1): area2 += dot(cross(sub(pts[k], pts[0]), sub(pts[k + 1], pts[0])), n_in)
+                key = lambda r_, s_: (r_, None if s_ is None else tuple(round(x, 9) for x in s_))
+                match = [x for x in c["areas"] if key(x["right"], x["shift"]) == key(f["neighbour"], f["shift"])]
+                if f["neighbour"] is not None:
+                    if len(match) != 1: return bad("accessors (neighbour, shift) of a face do not match exactly one face integral", face=fi, neighbour=f["neighbour"], shift=f["shift"], matches=len(match))
+                    if abs(match[0]["area"] - area2 / 2) > 1e-8 * sc * sc: return bad("polygon area differs from the face's area integral", face=fi, polygon=area2 / 2, integral=match[0]["area"])
+            if len(V) - edges // 2 + len(F) != 2 or edges % 2: return bad("V - E + F != 2", V=len(V), E=edges / 2, F=len(F))
+            f2 = c["faces_after_discard_and_rederive"]
+            if [(x["vertices"], x["neighbour"], x["shift"]) for x in F] != [(x["vertices"], x["neighbour"], x["shift"]) for x in f2]:
+                return bad("discarding and re-deriving the faces is not the identity")
+    return ncells, None
